@@ -4,6 +4,7 @@
   Tid → List Op` (any number of threads) and ANY schedule.
 -/
 import IgrisModel.C20.Order
+import IgrisModel.C20.EventLemmas
 namespace Igris.C20
 
 /-! ### system lock -/
@@ -379,5 +380,75 @@ theorem pop_is_ith_push {prog q0 s} (h : ReachS prog q0 s) :
 theorem per_producer_order_spur {prog q0 s} (h : ReachS prog q0 s) (p : Tid) :
     (s.popped.filter (·.1 = p)) <+: (s.pushed.filter (·.1 = p)) := by
   rw [queue_fifo_spur h, List.filter_append]; exact List.prefix_append _ _
+
+/-! ## the shared event (wait / wait(timeout) / signal / reset / isset) and the semaphore
+
+`Ev.Reach prog s`: ONE `igris::event` and ONE `igris::semaphore(1)` shared by any
+number of threads running any programs, under every schedule of thread steps,
+spurious condition-variable returns and time-outs of timed waits. -/
+
+/-- the event's mutex: held exactly by the thread inside a critical section of
+    wait / signal / reset, hence by at most one -/
+theorem event_mutex_exclusive {prog s} (h : Ev.Reach prog s) (t u : Ev.Tid)
+    (ht : Ev.Holds (s.pc t) = true) (hu : Ev.Holds (s.pc u) = true) :
+    t = u ∧ s.holder = some t := by
+  have hi := Ev.reach_EI h
+  have a := (hi.hold t).mp ht
+  have b := (hi.hold u).mp hu
+  rw [a] at b
+  exact ⟨Option.some.inj b, a⟩
+
+/-- what a wait is about to return is the flag at that moment (it holds the
+    mutex): `wait()` — without time-out — only ever returns with the event SET,
+    whatever spurious returns happen; `wait(timeout)` returns false only while
+    the event is clear -/
+theorem event_wait_result_is_flag {prog s} (h : Ev.Reach prog s) (t : Ev.Tid) (timed r : Bool)
+    (hpc : s.pc t = .unlock timed r) :
+    s.flag = r ∧ (timed = false → r = true) ∧ s.holder = some t := by
+  have hi := Ev.reach_EI h
+  refine ⟨hi.ret t timed r hpc, ?_, (hi.hold t).mp (by rw [hpc]; rfl)⟩
+  intro e; subst e; exact hi.plain t r hpc
+example : ∃ s, Ev.Reach (fun t => if t = 0 then [.wait] else if t = 1 then [.signal] else []) s ∧
+    s.pc 0 = .unlock false true :=
+  ⟨_, Ev.reach_runActs .init [.run 0, .run 0, .spur 0, .run 1, .run 1, .run 1, .run 0], by decide⟩
+example : ∃ s, Ev.Reach (fun t => if t = 0 then [.waitFor false] else []) s ∧ s.pc 0 = .unlock true false :=
+  ⟨_, Ev.reach_runActs .init [.run 0, .run 0, .timeout 0, .run 0], by decide⟩
+
+/-- no lost wake-up on the shared event: while the flag is set, every thread
+    asleep in the condition variable has its notify_all still to come (and the
+    thread about to notify has the flag set) -/
+theorem event_no_lost_wakeup {prog s} (h : Ev.Reach prog s) (t : Ev.Tid)
+    (hs : Ev.IsSleep (s.pc t) = true) (hf : s.flag = true) :
+    ∃ k, Ev.IsNotify (s.pc k) = true ∧ s.holder = some k := by
+  have hi := Ev.reach_EI h
+  obtain ⟨k, hk⟩ := hi.sleepnotify t hs hf
+  exact ⟨k, hk, (hi.hold k).mp (Ev.notify_holds _ hk)⟩
+
+/-- notify_all leaves nobody asleep -/
+theorem event_notify_wakes_all (s : Ev.EState) (t : Ev.Tid) (r : Bool) (hpc : s.pc t = .gNotify r) :
+    ∃ s', Ev.step s t = some s' ∧ ∀ u, Ev.IsSleep (s'.pc u) = false := by
+  refine ⟨_, by simp [Ev.step, hpc]; rfl, ?_⟩
+  intro u
+  simp only [Ev.upd]
+  split
+  · rfl
+  · exact Ev.sleep_wake _
+
+/-- signal() sets the flag and reports whether it was clear; reset() clears it
+    and reports whether it was set (both under the mutex) -/
+theorem event_signal_reset_results (s : Ev.EState) (t : Ev.Tid) (rest : List Ev.EOp)
+    (hpc : s.pc t = .idle) (hfree : s.holder = none) :
+    (s.prog t = .signal :: rest → ∃ s', Ev.step s t = some s' ∧ s'.flag = true ∧ s'.pc t = .gNotify (!s.flag)) ∧
+    (s.prog t = .reset :: rest → ∃ s', Ev.step s t = some s' ∧ s'.flag = false ∧ s'.pc t = .rUnlock s.flag) := by
+  constructor <;> intro hp <;> simp [Ev.step, hpc, hp, Ev.stepIdle, hfree, Ev.upd]
+
+/-- semaphore accounting: value + successful waits = initial value + posts;
+    `wait` blocks exactly at 0, `trywait` never blocks -/
+theorem semaphore_accounting {prog s} (h : Ev.Reach prog s) (t : Ev.Tid) (rest : List Ev.EOp) :
+    s.sv + s.takes = 1 + s.posts ∧
+    ((Ev.stepIdle s t .sWait rest).isNone ↔ s.sv = 0) ∧ (Ev.stepIdle s t .sTry rest).isSome := by
+  refine ⟨(Ev.reach_EI h).acct, ?_, ?_⟩
+  · simp only [Ev.stepIdle]; split <;> simp <;> omega
+  · simp only [Ev.stepIdle]; split <;> simp
 
 end Igris.C20
